@@ -49,6 +49,21 @@ fn main() {
             let n: u64 = args.get(2).and_then(|s| s.parse().ok()).unwrap_or(2000);
             dispatch(id.as_str(), &Action::Survey(seed, n))
         }
+        #[cfg(feature = "kit-sim")]
+        "c01-child" => {
+            // fresh-process half of C01's cross-process comparison: print "<index> <digest>" lines
+            let seed: u64 = args[1].parse().expect("seed");
+            let n: u64 = args[2].parse().expect("n");
+            for (i, d) in props::c01::child_digests(seed, n) {
+                println!("{i} {d:016x}");
+            }
+            0
+        }
+        #[cfg(feature = "kit-sim")]
+        "c01-hunt" => {
+            props::c01::hunt(args[1].parse().unwrap(), args[2].parse().unwrap(), args[3].parse().unwrap());
+            0
+        }
         "record" => {
             let id = args[1].clone();
             dispatch(id.as_str(), &Action::Record(Path::new(&args[2]), Path::new(&args[3])))
